@@ -306,8 +306,8 @@ Proof.
   assert (Ec0 : c0 = oc_norm (q + Tz + len + fl)).
   { subst c0. rewrite checksum_closed; [|repeat (apply Forall_cons; [apply w8_byte|]); constructor|exact Hp16|cbn; lia].
     unfold total. cbn [be_words zsum fold_right]. rewrite be16_rt by lia. rewrite Efl0, Efl, Ep.
-    replace (oc_norm (q + Tz) + (len + (0 * 256 + fl + 0))) with (oc_norm (q + Tz) + (len + fl)) by ring.
-    rewrite oc_norm_add by lia. f_equal. ring. }
+    replace (oc_norm (q + Tz) + (len + (0 * 256 + fl + 0))) with (oc_norm (q + Tz) + (len + fl)) by lia.
+    rewrite oc_norm_add by lia. f_equal. lia. }
   assert (Hc0 : 0 <= c0 < 65536) by (rewrite Ec0; apply oc_norm_u16; lia).
   set (SA := s0 * 256 + s1 + (s2 * 256 + s3 + (a0 * 256 + a1 + (a2 * 256 + a3 + 0)))).
   assert (HSA : 0 <= SA) by (subst SA; lia).
@@ -319,7 +319,7 @@ Proof.
   assert (Ec2 : c2 = oc_norm (q + Tz + len + fl + SA + WW)).
   { subst c2. rewrite checksum_closed; [|repeat (apply Forall_cons; [unfold is_byte; assumption|]); constructor|exact Hc1|cbn; lia].
     unfold total. cbn [be_words zsum fold_right]. rewrite Ec1.
-    replace (oc_norm (q + Tz + len + fl + SA) + (w0 * 256 + w1 + 0)) with (oc_norm (q + Tz + len + fl + SA) + WW) by (subst WW; ring).
+    replace (oc_norm (q + Tz + len + fl + SA) + (w0 * 256 + w1 + 0)) with (oc_norm (q + Tz + len + fl + SA) + WW) by (subst WW; lia).
     apply oc_norm_add; subst WW; lia. }
   assert (Hc2 : is_u16 c2) by (rewrite Ec2; apply oc_norm_u16; subst WW; lia).
   destruct (lnot16_bytes c2 Hc2) as (L1 & L2 & L3). unfold is_u16, is_byte in *.
@@ -328,7 +328,7 @@ Proof.
   { apply checksum_u16; [repeat (apply Forall_cons; [apply w8_byte|]); constructor|exact Hq|cbn; lia]. }
   assert (Ei : checksum [w8 (len / 2 ^ 8); w8 len] q = oc_norm (q + len)).
   { rewrite checksum_closed; [|repeat (apply Forall_cons; [apply w8_byte|]); constructor|exact Hq|cbn; lia].
-    unfold total. cbn [be_words zsum fold_right]. rewrite be16_rt by lia. f_equal. ring. }
+    unfold total. cbn [be_words zsum fold_right]. rewrite be16_rt by lia. f_equal. lia. }
   rewrite checksum_closed.
   - unfold total. cbn [be_words zsum fold_right]. fold S0.
     rewrite be16_rt by (unfold lnot16; lia). rewrite Efl, Ei.
@@ -336,7 +336,7 @@ Proof.
       replace T with (Tz + fl + SA + WW + lnot16 c2) by (subst Tz SA WW; clearbody S0; lia)
     end.
     rewrite oc_norm_add by (subst WW; unfold lnot16; lia).
-    replace (q + len + (Tz + fl + SA + WW + lnot16 c2)) with ((q + Tz + len + fl + SA + WW) + lnot16 c2) by ring.
+    replace (q + len + (Tz + fl + SA + WW + lnot16 c2)) with ((q + Tz + len + fl + SA + WW) + lnot16 c2) by lia.
     rewrite Ec2. apply oc_norm_complement. subst WW. lia.
   - repeat (apply Forall_cons; [first [unfold is_byte; assumption | apply w8_byte]|]). exact Hf.
   - exact Hi.
@@ -344,3 +344,10 @@ Proof.
 Qed.
 
 Definition encodePartial_verify := conj ipv4_encodePartial_verifies tcp_encodePartial_verifies.
+
+(* a worked instance (the IPv4 header of the Wikipedia "IPv4 header checksum" article) *)
+Example checksum_ipv4_example :
+  checksum [69;0;0;115;0;0;64;0;64;17;0;0;192;168;0;1;192;168;0;199] 0 = 18334 /\
+  lnot16 18334 = 47201 /\
+  checksum [69;0;0;115;0;0;64;0;64;17;184;97;192;168;0;1;192;168;0;199] 0 = 65535.
+Proof. repeat split; vm_compute; reflexivity. Qed.
